@@ -328,48 +328,55 @@ Section Proofs.
   Lemma py_eq_bytes : forall b t, py_eq b (ABytes t) = true -> exists i, b = ABytes i /\ pystr_eqb i t = true.
   Proof. intros b t. destruct b; cbn; intro H; try discriminate. eauto. Qed.
 
-  Lemma shortcut_atom : forall x, shortcut x = true -> exists a, x = VAtom a.
+  Lemma shortcut_atom : forall x, atom_item = true -> shortcut x = true -> exists a, x = VAtom a.
   Proof.
-    intros x H. unfold SearchModel.shortcut in H. apply andb_true_iff in H. destruct H as [_ H].
-    destruct x; cbn in H; try discriminate. eauto.
+    intros x Hai H. unfold SearchModel.shortcut in H. apply andb_true_iff in H. destruct H as [_ H].
+    unfold thing_eq_item in H. destruct it as [b|b|w]; try discriminate;
+      destruct x; try discriminate; eauto.
   Qed.
 
-  Lemma shortcut_facts : forall a, shortcut (VAtom a) = true ->
+  Lemma shortcut_facts : forall a, atom_item = true -> shortcut (VAtom a) = true ->
     atom_match a = true /\ atom_raises a = false /\ attrs_of (VAtom a) = [].
   Proof.
-    intros a H. unfold SearchModel.shortcut in H. apply andb_true_iff in H. destruct H as [_ H].
-    cbn [thing_eq_item] in H. unfold eq_item in H.
-    destruct it as [b|b] eqn:Eit; [|discriminate].
+    intros a Hai H. unfold SearchModel.shortcut in H. apply andb_true_iff in H. destruct H as [_ H].
+    unfold thing_eq_item, eq_item in H.
+    assert (Hat : attrs_of (VAtom a) = []).
+    { destruct (is_strlike a) eqn:Hs; [|apply attrs_of_notstr; auto]. apply attrs_of_unsearched.
+      unfold SearchSpec.obj_searched. destruct it as [[| | | | |]|b|w]; try discriminate; auto.
+      destruct a; try discriminate; destruct cs; discriminate. }
+    split; [|split]; [| |exact Hat]; clear Hat;
+    destruct it as [b|b|w] eqn:Eit; try discriminate;
     destruct a as [|b0|z0|t0|s|s].
-    - assert (b = ANone) by (apply py_eq_none; destruct cs; exact H). subst b. cbn. auto.
+    - assert (b = ANone) by (apply py_eq_none; destruct cs; exact H). subst b. reflexivity.
     - assert (H' : py_eq b (ABool b0) = true) by (destruct cs; exact H).
-      cbn [SearchSpec.atom_match SearchSpec.atom_raises]. unfold SearchSpec.num_match, SearchSpec.num_raises.
-      rewrite H'. cbn. repeat split; auto. destruct b; reflexivity.
+      cbn [SearchSpec.atom_match]. unfold SearchSpec.num_match. rewrite H'. reflexivity.
     - assert (H' : py_eq b (AInt z0) = true) by (destruct cs; exact H).
-      cbn [SearchSpec.atom_match SearchSpec.atom_raises]. unfold SearchSpec.num_match, SearchSpec.num_raises.
-      rewrite H'. cbn. repeat split; auto. destruct b; reflexivity.
+      cbn [SearchSpec.atom_match]. unfold SearchSpec.num_match. rewrite H'. reflexivity.
     - assert (H' : py_eq b (AHalf t0) = true) by (destruct cs; exact H).
-      cbn [SearchSpec.atom_match SearchSpec.atom_raises]. unfold SearchSpec.num_match, SearchSpec.num_raises.
-      rewrite H'. cbn. repeat split; auto. destruct b; reflexivity.
+      cbn [SearchSpec.atom_match]. unfold SearchSpec.num_match. rewrite H'. reflexivity.
     - assert (H' : py_eq b (AStr (fold_s s)) = true) by (unfold SearchModel.fold_s; destruct cs; exact H).
       apply py_eq_str in H'. destruct H' as [i [Hb Hi]]. subst b.
-      cbn [SearchSpec.atom_match SearchSpec.atom_raises SearchSpec.attrs_of].
-      unfold SearchSpec.str_match, SearchSpec.str_raises. cbn [negb andb].
-      repeat split; auto.
+      cbn [SearchSpec.atom_match]. unfold SearchSpec.str_match. cbn [negb andb].
       destruct (match_string c); [exact Hi|]. apply pystr_eqb_eq in Hi. rewrite Hi. apply contains_sub_refl.
     - assert (H' : py_eq b (ABytes (fold_s s)) = true) by (unfold SearchModel.fold_s; destruct cs; exact H).
       apply py_eq_bytes in H'. destruct H' as [i [Hb Hi]]. subst b.
-      cbn [SearchSpec.atom_match SearchSpec.atom_raises SearchSpec.attrs_of].
-      unfold SearchSpec.str_match, SearchSpec.str_raises. cbn [negb andb].
-      repeat split; auto.
+      cbn [SearchSpec.atom_match]. unfold SearchSpec.str_match. cbn [negb andb].
       destruct (match_string c); [exact Hi|]. apply pystr_eqb_eq in Hi. rewrite Hi. apply contains_sub_refl.
+    - reflexivity.
+    - reflexivity.
+    - reflexivity.
+    - reflexivity.
+    - assert (H' : py_eq b (AStr (fold_s s)) = true) by (unfold SearchModel.fold_s; destruct cs; exact H).
+      apply py_eq_str in H'. destruct H' as [i [Hb _]]. subst b. reflexivity.
+    - assert (H' : py_eq b (ABytes (fold_s s)) = true) by (unfold SearchModel.fold_s; destruct cs; exact H).
+      apply py_eq_bytes in H'. destruct H' as [i [Hb _]]. subst b. reflexivity.
   Qed.
 
-  Lemma shortcut_local : forall a, shortcut (VAtom a) = true ->
-    forall p ev, local_ev p (VAtom a) ev <-> ev = EvValue p (VAtom a).
+  (* with an atom item, what equals the item also matches by its comparer *)
+  Lemma equals_item_leaf_match : forall v, atom_item = true -> shortcut v = true -> leaf_match v = true.
   Proof.
-    intros a H p ev. destruct (shortcut_facts a H) as [H1 [H2 H3]].
-    rewrite local_ev_atom. rewrite H1, H2, H3. crush. noattr.
+    intros v Hai H. destruct (shortcut_atom v Hai H) as [a Ha]. subst v.
+    apply (shortcut_facts a Hai H).
   Qed.
 
   Lemma thing_events_iff : forall srch x p' ev,
@@ -385,13 +392,19 @@ Section Proofs.
 
   Definition spec_ev (obj : value) (pre : path) (ev : event) : Prop :=
     item_excl = false /\
-    exists rest w, get_at obj rest = Some w /\ vis pre obj rest = true /\ local_ev (pre ++ rest) w ev.
+    exists rest w, get_at obj rest = Some w /\
+      ((vis true pre obj rest = true /\ local_ev (pre ++ rest) w ev)
+       \/ (vis false pre obj rest = true /\ vis true pre obj rest = false
+           /\ ev = EvValue (pre ++ rest) w)).
 
-  Lemma vis_head : forall pre obj rest, vis pre obj rest = true -> path_excl pre = false.
+  Lemma vis_head : forall e pre obj rest, vis e pre obj rest = true -> path_excl pre = false.
   Proof.
-    intros pre obj rest H. destruct rest; cbn in H; apply andb_true_iff in H; destruct H as [H _];
+    intros e pre obj rest H. destruct rest; cbn [SearchSpec.vis] in H; apply andb_true_iff in H; destruct H as [H _];
       apply negb_true_iff in H; exact H.
   Qed.
+
+  Lemma vis_nil : forall e pre obj, vis e pre obj [] = negb (path_excl pre).
+  Proof. intros. cbn. apply andb_true_r. Qed.
 
   Lemma child_atom : forall a s, child (VAtom a) s = None.
   Proof. intros a s. destruct s; reflexivity. Qed.
@@ -408,9 +421,10 @@ Section Proofs.
     intros a pre ev. unfold SearchModel.search_atom, SearchModel.skip_item, spec_ev. split.
     - destruct (path_excl pre) eqn:E1; [intros []|]. destruct item_excl eqn:E2; [intros []|].
       cbn [orb]. intro H. apply search_leaf_iff in H. split; auto.
-      exists [], (VAtom a). cbn. rewrite E1, app_nil_r. auto.
-    - intros [Hi [rest [w [Hg [Hv Hl]]]]]. apply get_at_atom in Hg. destruct Hg; subst.
-      apply vis_head in Hv. rewrite Hv, Hi. cbn [orb]. apply search_leaf_iff.
+      exists [], (VAtom a). split; [reflexivity|]. left. rewrite vis_nil, E1, app_nil_r. auto.
+    - intros [Hi [rest [w [Hg HH]]]]. apply get_at_atom in Hg. destruct Hg; subst.
+      rewrite !vis_nil in HH. destruct HH as [[Hv Hl]|[Hv1 [Hv2 _]]]; [|congruence].
+      apply negb_true_iff in Hv. rewrite Hv, Hi. cbn [orb]. apply search_leaf_iff.
       rewrite app_nil_r in Hl. exact Hl.
   Qed.
 
@@ -430,30 +444,35 @@ Section Proofs.
       apply thing_events_iff in H. destruct H as [Hsk H]. unfold SearchModel.skip_this in Hsk.
       apply orb_false_iff in Hsk. destruct Hsk as [Hp' Hty].
       split; auto. destruct H as [[Hsc Hev]|[Hsc Hin]].
-      + exists [SIdx i], x. cbn [get_at SearchSpec.vis]. rewrite Hidx, Hn.
-        cbn [step_is_idx]. rewrite E1, Hp', Hty. cbn. repeat split; auto.
-        destruct (shortcut_atom x Hsc) as [a Ha]. subst x. apply shortcut_local; auto.
+      + exists [SIdx i], x. split; [cbn [get_at]; rewrite Hidx, Hn; reflexivity|]. right.
+        cbn [SearchSpec.vis]. rewrite Hidx, Hn. cbn [step_is_idx is_nil]. rewrite E1, Hp', Hty, Hsc. cbn. auto.
       + apply IH in Hin; [|eapply nth_error_In; eauto].
-        destruct Hin as [_ [rest [w [Hg [Hv Hl]]]]].
-        exists (SIdx i :: rest), w. cbn [get_at SearchSpec.vis]. rewrite Hidx, Hn.
-        cbn [step_is_idx]. rewrite E1, Hty, Hv. cbn. repeat split; auto.
-        rewrite <- app_assoc in Hl. exact Hl.
-    - intros [Hi [rest [w [Hg [Hv Hl]]]]]. destruct rest as [|s r].
-      + cbn in Hg. inversion Hg; subst w. exfalso. eapply Hloc; eauto.
-      + cbn [get_at SearchSpec.vis] in Hg, Hv. destruct s as [k|i].
+        destruct Hin as [_ [rest [w [Hg HH]]]].
+        exists (SIdx i :: rest), w. split; [cbn [get_at]; rewrite Hidx, Hn; exact Hg|].
+        cbn [SearchSpec.vis]. rewrite Hidx, Hn. cbn [step_is_idx]. rewrite E1, Hty, Hsc. cbn [negb andb].
+        rewrite <- app_assoc in HH. cbn [app] in HH.
+        destruct HH as [[Hv Hl]|[Hv1 [Hv2 Hev]]]; [left|right]; auto.
+    - intros [Hi [rest [w [Hg HH]]]]. destruct rest as [|s r].
+      + cbn in Hg. inversion Hg; subst w. rewrite !vis_nil in HH.
+        destruct HH as [[_ Hl]|[Hv1 [Hv2 _]]]; [|congruence]. exfalso. eapply Hloc; eauto.
+      + cbn [get_at SearchSpec.vis] in Hg, HH. destruct s as [k|i].
         { rewrite Hkey in Hg. discriminate. }
-        rewrite Hidx in Hg, Hv. destruct (nth_error ys i) as [x|] eqn:Hn; [|discriminate].
-        cbn [step_is_idx andb] in Hv.
-        apply andb_true_iff in Hv. destruct Hv as [Hv1 Hv]. apply andb_true_iff in Hv. destruct Hv as [Hv2 Hv3].
-        apply negb_true_iff in Hv1. apply negb_true_iff in Hv2.
-        rewrite Hv1, Hi. cbn [orb]. apply Hevs. exists i, x. split; auto.
-        apply thing_events_iff. split.
-        { unfold SearchModel.skip_this. rewrite (vis_head _ _ _ Hv3), Hv2. reflexivity. }
-        destruct (shortcut x) eqn:Hsc.
-        * left. split; auto. destruct (shortcut_atom x Hsc) as [a Ha]. subst x.
-          apply get_at_atom in Hg. destruct Hg; subst. apply (shortcut_local a Hsc) in Hl. exact Hl.
-        * right. split; auto. apply IH; [eapply nth_error_In; eauto|]. split; auto.
-          exists r, w. repeat split; auto. rewrite <- app_assoc. exact Hl.
+        rewrite Hidx in Hg, HH. destruct (nth_error ys i) as [x|] eqn:Hn; [|discriminate].
+        cbn [step_is_idx andb] in HH.
+        destruct (path_excl pre) eqn:E1; [destruct HH as [[Hv _]|[Hv _]]; discriminate|].
+        destruct (ty_excl (type_of x)) eqn:Hty; [destruct HH as [[Hv _]|[Hv _]]; discriminate|].
+        cbn [negb andb orb] in HH. rewrite Hi. cbn [orb]. apply Hevs. exists i, x. split; auto.
+        apply thing_events_iff. destruct (shortcut x) eqn:Hsc.
+        * cbn [negb andb orb] in HH. destruct HH as [[Hv _]|[Hv1 [_ Hev]]]; [discriminate|].
+          destruct r as [|s' r']; [|discriminate]. cbn in Hg. inversion Hg; subst w.
+          cbn [is_nil negb andb] in Hv1. split.
+          { unfold SearchModel.skip_this. rewrite (vis_head _ _ _ _ Hv1), Hty. reflexivity. }
+          left. auto.
+        * cbn [negb andb] in HH. split.
+          { unfold SearchModel.skip_this. rewrite Hty.
+            destruct HH as [[Hv _]|[Hv _]]; rewrite (vis_head _ _ _ _ Hv); reflexivity. }
+          right. split; auto. apply IH; [eapply nth_error_In; eauto|]. split; auto.
+          exists r, w. split; auto. rewrite <- app_assoc. cbn [app]. exact HH.
   Qed.
 
   Definition iter_list (pre : path) :=
